@@ -63,7 +63,7 @@ pub struct MsgInfo {
 #[derive(Default)]
 pub struct Caches {
     derivable: std::sync::Mutex<HashMap<Vec<u32>, std::sync::Arc<Derivable>>>,
-    actions: std::sync::Mutex<HashMap<(usize, u32, u64, u64), std::sync::Arc<Vec<Action>>>>,
+    actions: std::sync::Mutex<HashMap<(usize, u32, u64, u64), std::sync::Arc<Vec<std::sync::Arc<Action>>>>>,
     verified_blocks: std::sync::Mutex<HashMap<u64, bool>>,
 }
 
@@ -291,7 +291,7 @@ fn justification_of(l: &Local) -> Option<v2::ProposalJustification> {
 }
 
 /// All actions offered in global state `g` (cached per (replica, its local state, pool, available blocks)).
-pub fn actions(sys: &Sys, t: &Tables, g: &G) -> Vec<Action> {
+pub fn actions(sys: &Sys, t: &Tables, g: &G) -> Vec<std::sync::Arc<Action>> {
     let mut avail: Vec<(u64, u64)> = vec![];
     for lid in &g.locals {
         for b in &t.locals[*lid as usize].blocks {
@@ -310,7 +310,7 @@ pub fn actions(sys: &Sys, t: &Tables, g: &G) -> Vec<Action> {
         let acts = match hit {
             Some(a) => a,
             None => {
-                let a = std::sync::Arc::new(actions_uncached(sys, t, g, ri));
+                let a = std::sync::Arc::new(actions_uncached(sys, t, g, ri).into_iter().map(std::sync::Arc::new).collect::<Vec<_>>());
                 t.caches.actions.lock().unwrap().insert(key, a.clone());
                 a
             }
@@ -600,7 +600,51 @@ pub struct L2Result {
     pub violations: Vec<(String, String, serde_json::Value)>,
     pub samples: Vec<String>,
     /// states kept for the progress check (C06): (state, path)
-    pub kept: Vec<(G, Vec<String>)>,
+    /// states kept for C06 with the index of their path in `paths`
+    pub kept: Vec<(G, u32)>,
+    pub paths: Paths,
+}
+
+/// Arena of BFS paths: a path is (parent path, action description); descriptions are interned.
+/// (Storing a Vec<String> per state cost ~1 kB per state and ended a thorough run in the OOM killer.)
+#[derive(Default)]
+pub struct Paths {
+    nodes: Vec<(u32, u32)>,
+    descs: Vec<String>,
+    index: HashMap<String, u32>,
+}
+
+pub const ROOT_PATH: u32 = u32::MAX;
+
+impl Paths {
+    pub fn push(&mut self, parent: u32, desc: &str) -> u32 {
+        let d = match self.index.get(desc) {
+            Some(d) => *d,
+            None => {
+                let d = self.descs.len() as u32;
+                self.descs.push(desc.to_string());
+                self.index.insert(desc.to_string(), d);
+                d
+            }
+        };
+        self.nodes.push((parent, d));
+        (self.nodes.len() - 1) as u32
+    }
+    pub fn get(&self, mut idx: u32) -> Vec<String> {
+        let mut v = vec![];
+        while idx != ROOT_PATH {
+            let (p, d) = self.nodes[idx as usize];
+            v.push(self.descs[d as usize].clone());
+            idx = p;
+        }
+        v.reverse();
+        v
+    }
+    pub fn with(&self, idx: u32, last: &str) -> Vec<String> {
+        let mut v = self.get(idx);
+        v.push(last.to_string());
+        v
+    }
 }
 
 /// Safety oracle on one global state.
@@ -659,7 +703,9 @@ pub fn explore(cfg: &L2Cfg, keep_for_progress: usize) -> (Sys, Tables, L2Result)
     let init = G { locals: vec![l0; sys.correct.len()], pool: vec![] };
     let mut seen: HashSet<G> = HashSet::new();
     seen.insert(init.clone());
-    let mut frontier: Vec<(G, Vec<String>)> = vec![(init, vec![])];
+    let mut paths = Paths::default();
+    let mut frontier: Vec<(G, u32)> = vec![(init, ROOT_PATH)];
+    let rss_limit: usize = std::env::var("VERIF_RSS_LIMIT_GB").ok().and_then(|s| s.parse().ok()).unwrap_or(24usize) << 30;
     res.states = 1;
     let mut depth = 0u32;
     let mut viol: BTreeMap<String, (String, serde_json::Value)> = BTreeMap::new();
@@ -667,20 +713,26 @@ pub fn explore(cfg: &L2Cfg, keep_for_progress: usize) -> (Sys, Tables, L2Result)
     'outer: while !frontier.is_empty() {
         // a level costs about (growth factor) x the previous one: do not start a level that cannot
         // be completed before the deadline (an unfinished level would not count anyway)
-        if std::time::Instant::now() + last_level * 2 > cfg.deadline || res.states >= cfg.max_states {
+        if std::time::Instant::now() + last_level * 2 > cfg.deadline || res.states >= cfg.max_states || crate::core::rss_bytes() > rss_limit {
             res.capped = true;
             break 'outer;
         }
         let t_level = std::time::Instant::now();
+        // the per-pool caches (derivable certificates, action menus) are pure accelerators and are
+        // by far the largest tables: drop them when memory gets tight
+        if crate::core::rss_bytes() > rss_limit / 3 {
+            t.caches.derivable.lock().unwrap().clear();
+            t.caches.actions.lock().unwrap().clear();
+        }
         // phase 1: actions of every frontier state; collect the local transitions not yet known
         let tp0 = std::time::Instant::now();
-        let per_state: Vec<(Vec<v2::FinalBlock>, Vec<(Action, MemoKey)>)> = crate::core::par_map(frontier.len(), |fi| {
+        let per_state: Vec<(Vec<v2::FinalBlock>, Vec<(std::sync::Arc<Action>, MemoKey)>)> = crate::core::par_map(frontier.len(), |fi| {
             let g = &frontier[fi].0;
             let sp = sync_pool_of(&t, g);
-            let acts: Vec<(Action, MemoKey)> = actions(&sys, &t, g).into_iter().map(|a| { let mk = memo_key(&sys, &t, g, &a, &sp); (a, mk) }).collect();
+            let acts: Vec<(std::sync::Arc<Action>, MemoKey)> = actions(&sys, &t, g).into_iter().map(|a| { let mk = memo_key(&sys, &t, g, &a, &sp); (a, mk) }).collect();
             (sp, acts)
         });
-        let mut level: Vec<(usize, Action, MemoKey)> = vec![];
+        let mut level: Vec<(usize, std::sync::Arc<Action>, MemoKey)> = vec![];
         let mut needed: Vec<(MemoKey, usize, usize)> = vec![]; // key, frontier index, action index in `level`
         let mut needed_set: HashSet<MemoKey> = HashSet::new();
         let mut pools: Vec<Vec<v2::FinalBlock>> = Vec::with_capacity(frontier.len());
@@ -722,14 +774,13 @@ pub fn explore(cfg: &L2Cfg, keep_for_progress: usize) -> (Sys, Tables, L2Result)
         }
         let tp2 = std::time::Instant::now();
         // phase 3: successor states
-        let mut next: Vec<(G, Vec<String>)> = vec![];
+        let mut next: Vec<(G, u32)> = vec![];
         for (fi, a, mk) in &level {
             let (g, path) = &frontier[*fi];
             let (ng, flags) = successor(&t, g, a, mk);
             res.transitions += 1;
             if flags.store_rewritten && !cfg.ignore.contains(&"store_rewritten") {
-                let mut p = path.clone();
-                p.push(a.desc.clone());
+                let p = paths.with(*path, &a.desc);
                 viol.entry("store_rewritten".into()).or_insert_with(|| (format!("[store_rewritten] a correct replica removed or replaced a committed block\n  path: {}", p.join("  ->  ")), serde_json::json!({"harness":"l2","path":p})));
             }
             if ng == *g {
@@ -737,24 +788,24 @@ pub fn explore(cfg: &L2Cfg, keep_for_progress: usize) -> (Sys, Tables, L2Result)
             }
             if seen.insert(ng.clone()) {
                 res.states += 1;
-                let mut p = path.clone();
-                p.push(a.desc.clone());
+                let pi = paths.push(*path, &a.desc);
                 for (k, what) in check_state(&sys, &t, &ng) {
                     if cfg.ignore.contains(&k.as_str()) {
                         continue;
                     }
+                    let p = paths.get(pi);
                     viol.entry(k.clone()).or_insert_with(|| (format!("[{k}] {what}\n  path ({} steps): {}", p.len(), p.join("  ->  ")), serde_json::json!({"harness":"l2","path":p})));
                 }
                 let nb = ng.locals.iter().map(|l| t.locals[*l as usize].blocks.len()).max().unwrap_or(0);
                 res.blocks_finalized_max = res.blocks_finalized_max.max(nb);
                 res.max_view = res.max_view.max(ng.locals.iter().map(|l| t.locals[*l as usize].snap.view_number.0).max().unwrap_or(0));
                 if res.samples.len() < 3 && nb >= 1 {
-                    res.samples.push(p.join(" -> "));
+                    res.samples.push(paths.get(pi).join(" -> "));
                 }
                 if res.kept.len() < keep_for_progress {
-                    res.kept.push((ng.clone(), p.clone()));
+                    res.kept.push((ng.clone(), pi));
                 }
-                next.push((ng, p));
+                next.push((ng, pi));
             }
         }
         if std::env::var("VERIF_DEBUG").is_ok() { eprintln!("   deriv {}ms zmsg {}ms key {}ms", T_DERIV.load(std::sync::atomic::Ordering::Relaxed)/1000, T_ZMSG.load(std::sync::atomic::Ordering::Relaxed)/1000, T_KEY.load(std::sync::atomic::Ordering::Relaxed)/1000); eprintln!("depth {depth}: frontier {} actions {} needed {} | phase1 {:.2}s phase2 {:.2}s phase3 {:.2}s", frontier.len(), level.len(), needed.len(), (tp1-tp0).as_secs_f64(), (tp2-tp1).as_secs_f64(), tp2.elapsed().as_secs_f64()); }
@@ -774,6 +825,7 @@ pub fn explore(cfg: &L2Cfg, keep_for_progress: usize) -> (Sys, Tables, L2Result)
     res.distinct_locals = t.locals.len();
     res.distinct_msgs = t.msgs.len();
     res.violations = viol.into_iter().map(|(k, (w, r))| (k, w, r)).collect();
+    res.paths = paths;
     (sys, t, res)
 }
 
